@@ -42,7 +42,7 @@ def replay(ctx, fam, behs, env=None):
     return replay_family(ctx, fam, behs, env=env, classify=classify)
 
 
-def scale(ctx, nquick, nthorough, ops=None, iface=False):
+def scale(ctx, nquick, nthorough, ops=None, iface=False, family=None):
     """Scale.tla: the lifecycle requirements on many objects at once - 64 functions in groups, a conditional stub with up to 120
     conditions, a sequence of up to 64 results; instance ScaleI: 12 interface variables x 12 methods. Model-checked on a small
     instance, random histories (8 simulation workers) replayed on the real library."""
@@ -63,4 +63,4 @@ def scale(ctx, nquick, nthorough, ops=None, iface=False):
         bs = [b for b in bs if any(s["op"] in ops for s in b)]
     if not bs:
         raise vlib.Broken("no Scale behaviours")
-    replay_family(ctx, fam, bs, classify=classify)
+    replay_family(ctx, family or fam, bs, classify=classify)
